@@ -402,15 +402,15 @@ def main(args: list[str]) -> int:
 
         return 0
 
-    if settings.explain:
-        print(explain(settings))
-
-        return 0
-
     try:
+        if settings.explain:
+            print(explain(settings))
+
+            return 0
+
         errors = run_refurb(settings)
 
-    except TypeError as e:
+    except (TypeError, ImportError) as e:
         print(e)
         return 1
 
